@@ -193,3 +193,85 @@ Definition op_ok (o : op) : Prop :=
   end.
 Definition complete_at (v : variant) (st : pstate) (o1 o2 : option Z) : Prop :=
   fst (range_read v st o1 o2) = filter (in_range_opt o1 o2) (read_all st).
+
+(* ---- a long-lived chkSelector: what a cached RANGE cursor that is continued across reads holds
+        (cselector.go: cs.stats, getChunkStatus, rebuildChunkStatuses) ----
+   The status of a chunk (window and the record count it was computed for) is cached per chunk id. It is
+   recomputed for ALL chunks (after SyncChunks) when the chunk is not in the cache or the number of chunks
+   differs from the number of cached statuses, and for THIS chunk (from GetRecordsInfo) when the chunk's
+   record count differs from the cached one.
+   `lazy` = true describes a refresh that is skipped when the cached upper position is not limited
+   (maxPos = MaxUint32), which includes the "whole chunk out of range" window [MaxUint32..MaxUint32]; the
+   code is `lazy = false`; the other variant is kept for the refutation in props/C02.v. *)
+Definition sel_cache := list (Z * chk_status).
+Fixpoint sel_find (sel : sel_cache) (cid : Z) : option chk_status :=
+  match sel with
+  | [] => None
+  | (c, s) :: tl => if c =? cid then Some s else sel_find tl cid
+  end.
+Fixpoint sel_set (sel : sel_cache) (cid : Z) (s' : chk_status) : sel_cache :=
+  match sel with
+  | [] => []
+  | (c, s) :: tl => if c =? cid then (c, s') :: tl else (c, s) :: sel_set tl cid s'
+  end.
+
+(* rebuildChunkStatuses, after SyncChunks: the i-th RecordsInfo with the i-th chunk *)
+Fixpoint sel_statuses (v : variant) (ci : cindex) (t1 t2 : Z) (infos : cindex) (cks : list (Z * list Z)) (q : list Z)
+  : sel_cache * list Z :=
+  match infos, cks with
+  | k :: itl, (cid, data) :: ctl =>
+      let '(s, rb) := update_poss v ci t1 t2 (k_id k) (k_min k) (k_max k) (Z.of_nat (length data)) in
+      let q' := if rb then enqueue q cid else q in
+      let '(sel, q'') := sel_statuses v ci t1 t2 itl ctl q' in
+      ((k_id k, s) :: sel, q'')
+  | _, _ => ([], q)
+  end.
+Definition sel_rebuild (v : variant) (t1 t2 : Z) (st : pstate) : sel_cache * pstate :=
+  let ci' := ci_sync (p_ci st) (p_chunks st) in
+  let '(sel, q') := sel_statuses v ci' t1 t2 ci' (p_chunks st) (p_queue st) in
+  (sel, mkp (p_chunks st) ci' q').
+
+(* getChunkStatus for the chunk (cid, cnt records) *)
+Definition get_chunk_status (lazy : bool) (v : variant) (t1 t2 : Z) (sel : sel_cache) (st : pstate) (cid cnt : Z)
+  : sel_cache * pstate :=
+  match sel_find sel cid with
+  | None => sel_rebuild v t1 t2 st
+  | Some s =>
+      if negb (Nat.eqb (length (p_chunks st)) (length sel)) then sel_rebuild v t1 t2 st
+      else if s_cnt s =? cnt then (sel, st)
+      else if lazy && (s_max s =? max_uint32) then (sel_set sel cid (mkst (s_min s) (s_max s) cnt), st)
+      else match find_chunk (p_ci st) cid with                 (* GetRecordsInfo *)
+           | Some k =>
+               let '(s', rb) := update_poss v (p_ci st) t1 t2 cid (k_min k) (k_max k) cnt in
+               (sel_set sel cid s', mkp (p_chunks st) (p_ci st) (if rb then enqueue (p_queue st) cid else p_queue st))
+           | None => (sel_set sel cid (mkst (s_min s) (s_max s) cnt), st)
+           end
+  end.
+
+(* the selector asked for the status of every chunk of the journal, in journal order (what a read to the
+   end from the first chunk does; the harness hook VC02Selector.Windows does exactly this) *)
+Fixpoint sel_walk_from (lazy : bool) (v : variant) (t1 t2 : Z) (cks : list (Z * list Z)) (sel : sel_cache) (st : pstate)
+  : sel_cache * pstate :=
+  match cks with
+  | [] => (sel, st)
+  | (cid, data) :: tl =>
+      let '(sel', st') := get_chunk_status lazy v t1 t2 sel st cid (Z.of_nat (length data)) in
+      sel_walk_from lazy v t1 t2 tl sel' st'
+  end.
+Definition sel_walk (lazy : bool) (v : variant) (t1 t2 : Z) (sel : sel_cache) (st : pstate) : sel_cache * pstate :=
+  sel_walk_from lazy v t1 t2 (p_chunks st) sel st.
+Definition sel_windows (sel : sel_cache) (cks : list (Z * list Z)) : list (option chk_status) :=
+  map (fun ck => sel_find sel (fst ck)) cks.
+(* the windows a FRESH selector computes in the same state *)
+Definition fresh_windows (v : variant) (t1 t2 : Z) (st : pstate) : list (option chk_status) :=
+  sel_windows (fst (sel_walk false v t1 t2 [] st)) (p_chunks st).
+
+(* one selector continued across reads: it is asked for all windows, then a sub-history happens, then it is
+   asked again, ... ; the statement "at every read its windows are those of a fresh selector in that state" *)
+Fixpoint session_ok (lazy : bool) (v : variant) (t1 t2 : Z) (st : pstate) (sel : sel_cache) (hs : list (list op)) : Prop :=
+  let r := sel_walk lazy v t1 t2 sel st in
+  sel_windows (fst r) (p_chunks st) = fresh_windows v t1 t2 st /\
+  match hs with
+  | [] => True
+  | h :: tl => session_ok lazy v t1 t2 (fold_left (step v) h (snd r)) (fst r) tl
+  end.
